@@ -25,7 +25,7 @@ import RV.Base.Proto
     quad s p o g                  -> ok     a quad of the data set of the top-down evaluator (g = 0: default graph)
     p <prefix tokens>             -> ok     an algebra tree:  bgp k s p o … | join P P | union P P | minus P P
                                             | ljoin (none | e E) P P | filter E P | extend ?v T P | graph T P
-                                            | values k (n tokens per row, `-` = UNDEF)…
+                                            | values k (n tokens per row, `-` = UNDEF)… | sub k v… P
     evaltd k v…                   -> rows … `evalSelectTD`: reorderTriples on every BGP, then the top-down evaluator
                                             with the current initBindings, projected on the k variables
   Rows: one `t0,t1,…` per solution (`-` = unbound), sorted, separated by blanks.
@@ -230,6 +230,11 @@ def parseP (n : Nat) : Nat → List String → Option (P n × List String)
       let k ← k.toNat?
       let (rows, r) ← takeRows n k rest
       pure (.values rows, r)
+    | "sub" :: k :: rest => do
+      let k ← k.toNat?
+      let (vs, r1) ← takeVars n k rest
+      let (q, r2) ← parseP n fuel r1
+      pure (.sub vs q, r2)
     | _ => none
 
 /-- the data set of the top-down evaluator: the default graph (g = 0) and one named graph per other g, in the order
